@@ -31,7 +31,22 @@ func VerifLcdBlackBox() {
 		}
 		t %= 17556
 		vAsserti("LY@", c, int(p.ReadLY()) == t/114)
-		vAsserti("mode@", c, p.ReadSTAT()&3 == refMode(t))
+		vAsserti("mode@", c, p.ReadSTAT()&3 == bbMode(t))
 	}
 	vReach("end")
+}
+
+// documented mode of the cycle with frame index t (own copy: this file must not depend on the white-box files)
+func bbMode(t int) uint8 {
+	line := t / 114
+	c := t % 114
+	switch {
+	case line >= 144:
+		return 1
+	case c < 20:
+		return 2
+	case c < 61:
+		return 3
+	}
+	return 0
 }
